@@ -158,6 +158,48 @@ def chain_break_differences(max_poses=6):
     return out
 
 
+ARG_ORDER_REPLAY = r"""
+import sys, logging
+sys.path.insert(0, %(verif)r)
+logging.disable(logging.CRITICAL)
+from props import native, C04
+bad = C04.arg_bond_order_differences()
+print('\n'.join(bad) if bad else 'identical in both poses')
+sys.exit(1 if bad else 0)
+"""
+
+
+def arg_bond_order_differences():
+    """ARG 8 A of 1HPX with a carboxylate oxygen 2.4 A from NE, off the guanidinium plane (NE is then the closest ARG atom, not a
+    hydrogen): energy.check_coo_arg_exception takes its third atom from closest_arg_atom.bonded_atoms[0], and the order of NE's bond
+    list (CD, CZ or CZ, CD) is the order in which the box search meets the pairs - it changes with the pose.  Returns the differences
+    between the original pose and a copy turned by 180 degrees about z and shifted (known finding D19)."""
+    from . import native
+    lines = [l for l in native.pdb_lines('1HPX') if l.startswith('ATOM')]
+    R = [l for l in lines if l[17:20] == 'ARG' and l[21] == 'A' and int(l[22:26]) == 8]
+    D = [l for l in lines if l[17:20] == 'ASP' and l[21] == 'A' and int(l[22:26]) == 25]
+    xyz = lambda l: [float(l[30:38]), float(l[38:46]), float(l[46:54])]     # noqa
+    at = lambda rs, n: [xyz(l) for l in rs if l[12:16].strip() == n][0]     # noqa
+    sub = lambda a, b: [a[i] - b[i] for i in range(3)]                      # noqa
+    ne, cz, cd, od1 = at(R, 'NE'), at(R, 'CZ'), at(R, 'CD'), at(D, 'OD1')
+    a, b = sub(cz, ne), sub(cd, ne)
+    n = [a[1] * b[2] - a[2] * b[1], a[2] * b[0] - a[0] * b[2], a[0] * b[1] - a[1] * b[0]]
+    ln, la = sum(c * c for c in n) ** 0.5, sum(c * c for c in a) ** 0.5
+    target = [ne[i] + 2.2 * n[i] / ln - 1.0 * a[i] / la for i in range(3)]
+    atoms = [(l, xyz(l)) for l in R] + [(l[:21] + 'B' + l[22:], [xyz(l)[i] + target[i] - od1[i] for i in range(3)]) for l in D]
+
+    def text(sign, shift):
+        return ['%s%5d%s%8.3f%8.3f%8.3f%s' % (l[:6], i + 1, l[11:30], sign[0] * q[0] + shift[0], sign[1] * q[1] + shift[1],
+                                              sign[2] * q[2] + shift[2], l[54:]) for i, (l, q) in enumerate(atoms)]
+    base = native.record(native.run_text(text((1, 1, 1), (0, 0, 0))))
+    out = []
+    for sign, shift in (((-1, -1, 1), (1.1, 0.0, 0.0)), ((-1, -1, 1), (1.2, 0.0, 0.0))):
+        d = native.diff_records(base, native.record(native.run_text(text(sign, shift))), tol=0.02, keys=('pka',), dets=False)
+        if d:
+            out.append('turned by 180 degrees about z, shifted by %r: %s' % (shift, d[:2]))
+    return out
+
+
 def task_group_centres(pr, repo):
     """GC: every setup_atoms variant leaves the group centre set by Group.set_center (VE: equivariant) from atoms of the structure -
     never at a frame-fixed default such as the origin."""
@@ -498,6 +540,17 @@ def bounded(pr):
         viol.append({'what': '1HPX (amino-acid part) with residue A 26 removed - hydrogen built on the backbone N after a chain break: '
                              'moved copies differ: %s' % cb[:2],
                      'replay': CHAIN_BREAK_REPLAY % {'verif': os.path.dirname(os.path.dirname(os.path.abspath(__file__)))}})
+    # a carboxylate oxygen next to NE of an arginine, off the plane: the third atom of the angle comes from the bond-list order (D19)
+    ev += 1
+    classes.add('arginine NE closest')
+    try:
+        ao = arg_bond_order_differences()
+    except Exception as e:    # noqa
+        ao = ['%s: %s' % (type(e).__name__, e)]
+    if ao:
+        viol.append({'what': 'ARG 8 A of 1HPX with a carboxylate oxygen 2.4 A from NE - COO-ARG exception takes its third atom from the '
+                             'bond-list order of NE: moved copies differ: %s' % ao[:1],
+                     'replay': ARG_ORDER_REPLAY % {'verif': os.path.dirname(os.path.dirname(os.path.abspath(__file__)))}})
     pr.bounded.append({'name': 'C04-monitor: rotated/translated copies of amino-acid structures', 'evaluations': ev,
                        'distinct_nontrivial': len(classes), 'bound': '%d structures x %d poses' % (len(names), len(poses)),
                        'rule': 'bonds, groups, desolvation, buried fractions exact (1e-9); pKa within 0.02 (hydrogen coordinates are rounded '
